@@ -131,6 +131,13 @@ def prepare(case, wd):
             for q, p in track:
                 f.write("%r %r\n" % (q, p))
     d = cfggen.derive(o)
+    if case.get("startleg"):
+        # the run under test starts from a phase-space record of an earlier results file: the set-up then also reads a file
+        leg = dict(o, rotations=float(np.float32((case["startleg"] - 0.5) / d["steps"])), outstep=0, SavePhaseSpace=0)
+        r0 = run(leg, wd, "s.h5", [])
+        if r0.rc != 0 or "Finished." not in r0.out:
+            return None, "first leg failed: %s %s" % (r0.out[-300:], r0.err[-300:])
+        o["InitialDistFile"] = "s.h5"
     warm = run(dict(o, outstep=0), wd, "warm.h5", track)
     rU = run(o, wd, "u.h5", track, env={"INOVESA_VERIF_IP_LOG": "ip_u.log"})
     rR = run(dict(o, outstep=1, SavePhaseSpace=1), wd, "r.h5", track)
@@ -211,7 +218,10 @@ def cases(draw):
     nsig = draw(st.sampled_from([1, 1, 1, 2, 3]))
     sched = [(draw(st.sampled_from(["uniform"] + ["loop"] * 8 + ["out"] * 8 + ["first", "last", "final"])), draw(st.floats(0, 0.999)))
              for _ in range(nsig)]
-    return dict(opts=o, track=track, schedule=sched)
+    c = dict(opts=o, track=track, schedule=sched)
+    if len(o["BunchCurrent"]) == 1 and draw(st.integers(0, 4)) == 0:
+        c["startleg"] = draw(st.integers(1, 8))
+    return c
 
 
 FIXED = [
